@@ -145,6 +145,40 @@ theorem toC_csigmoid (x y : ℝ) (hz : (1 : ℂ) + Complex.exp ((x : ℂ) + (y :
   unfold csigmoid sigC
   rw [toC_div _ _ (by rw [toC_add, toC_one, hez]; exact hz), toC_add, toC_one, hez]
 
+/-- `pi_grad` (either flag) pairs to `Σ_k s'_k · R_k` with `s'_k` the (possibly `i`-multiplied) complex sigmoid -/
+theorem pairC_piGrad (am ph d : PRBM ℝ n h a) (phase : Bool) (v vp : Fin n → ℝ) :
+    pairC (piGrad am ph phase v vp) d
+      = ∑ k, toC (if phase then C.mul (csigmoid (piArgRe am v vp k) (piArgIm ph v vp k)) C.I
+                  else csigmoid (piArgRe am v vp k) (piArgIm ph v vp k))
+          * (((∑ j, (if phase then v j - vp j else v j + vp j) * d.U k j) / 2 + (if phase then 0 else d.d k) : ℝ) : ℂ) := by
+  apply Complex.ext
+  · simp only [pairC, piGrad, PRBM.pair, zero_mul, Finset.sum_const_zero, zero_add, add_zero, two_eq,
+      Complex.re_sum, Complex.mul_re, Complex.ofReal_re, Complex.ofReal_im, mul_zero, sub_zero, toC_re]
+    cases phase
+    · simp only [Bool.false_eq_true, if_false]
+      rw [← Finset.sum_add_distrib]
+      refine Finset.sum_congr rfl (fun k _ => ?_)
+      rw [mul_add, Finset.sum_div, Finset.mul_sum]
+      congr 1
+      refine Finset.sum_congr rfl (fun j _ => by ring)
+    · simp only [if_true, zero_mul, Finset.sum_const_zero, add_zero]
+      refine Finset.sum_congr rfl (fun k _ => ?_)
+      rw [Finset.sum_div, Finset.mul_sum]
+      refine Finset.sum_congr rfl (fun j _ => by ring)
+  · simp only [pairC, piGrad, PRBM.pair, zero_mul, Finset.sum_const_zero, zero_add, add_zero, two_eq,
+      Complex.im_sum, Complex.mul_im, Complex.ofReal_re, Complex.ofReal_im, mul_zero, add_zero, toC_im]
+    cases phase
+    · simp only [Bool.false_eq_true, if_false]
+      rw [← Finset.sum_add_distrib]
+      refine Finset.sum_congr rfl (fun k _ => ?_)
+      rw [mul_add, Finset.sum_div, Finset.mul_sum]
+      congr 1
+      refine Finset.sum_congr rfl (fun j _ => by ring)
+    · simp only [if_true, zero_mul, Finset.sum_const_zero, add_zero]
+      refine Finset.sum_congr rfl (fun k _ => ?_)
+      rw [Finset.sum_div, Finset.mul_sum]
+      refine Finset.sum_congr rfl (fun j _ => by ring)
+
 theorem pairC_dmAmGrads (am ph dam : PRBM ℝ n h a) (v vp : Fin n → ℝ)
     (hz : ∀ k, (1 : ℂ) + Complex.exp (zArg am ph v vp k) ≠ 0) :
     pairC (dmAmGrads am ph v vp) dam
@@ -152,29 +186,167 @@ theorem pairC_dmAmGrads (am ph dam : PRBM ℝ n h a) (v vp : Fin n → ℝ)
         + ∑ k, sigC (zArg am ph v vp k) * (((∑ j, (v j + vp j) * dam.U k j) / 2 + dam.d k : ℝ) : ℂ) := by
   have hs : ∀ k, toC (csigmoid (piArgRe am v vp k) (piArgIm ph v vp k)) = sigC (zArg am ph v vp k) :=
     fun k => toC_csigmoid _ _ (hz k)
-  have hre : ∀ k, (csigmoid (piArgRe am v vp k) (piArgIm ph v vp k)).1 = (sigC (zArg am ph v vp k)).re := by
-    intro k; rw [← hs k]; rfl
-  have him : ∀ k, (csigmoid (piArgRe am v vp k) (piArgIm ph v vp k)).2 = (sigC (zArg am ph v vp k)).im := by
-    intro k; rw [← hs k]; rfl
+  have hp := pairC_piGrad am ph dam false v vp
+  simp only [Bool.false_eq_true, if_false, hs] at hp
+  rw [← hp]
   apply Complex.ext
-  · simp only [pairC, dmAmGrads, piGrad, PRBM.pair_add, Complex.add_re, Complex.ofReal_re, Complex.re_sum,
-      Complex.mul_re, Complex.ofReal_im, mul_zero, sub_zero, Bool.false_eq_true, if_false]
-    congr 1
-    simp only [PRBM.pair, zero_mul, Finset.sum_const_zero, zero_add, add_zero, two_eq, hre]
-    rw [← Finset.sum_add_distrib]
-    refine Finset.sum_congr rfl (fun k _ => ?_)
-    rw [mul_add, Finset.sum_div, Finset.mul_sum]
-    congr 1
-    refine Finset.sum_congr rfl (fun j _ => ?_)
-    ring
-  · simp only [pairC, dmAmGrads, piGrad, Complex.add_im, Complex.ofReal_im, Complex.im_sum,
-      Complex.mul_im, Complex.ofReal_re, mul_zero, add_zero, zero_add, Bool.false_eq_true, if_false]
-    simp only [PRBM.pair, zero_mul, Finset.sum_const_zero, zero_add, add_zero, two_eq, him]
-    rw [← Finset.sum_add_distrib]
-    refine Finset.sum_congr rfl (fun k _ => ?_)
-    rw [mul_add, Finset.sum_div, Finset.mul_sum]
-    congr 1
-    refine Finset.sum_congr rfl (fun j _ => ?_)
-    ring
+  · simp [pairC, dmAmGrads, PRBM.pair_add]
+  · simp [pairC, dmAmGrads]
+
+theorem pairC_dmPhGrads (am ph dph : PRBM ℝ n h a) (v vp : Fin n → ℝ)
+    (hz : ∀ k, (1 : ℂ) + Complex.exp (zArg am ph v vp k) ≠ 0) :
+    pairC (dmPhGrads am ph v vp) dph
+      = (((gammaGrad ph (-1) v vp).pair dph : ℝ) : ℂ) * I
+        + ∑ k, sigC (zArg am ph v vp k) * ((((∑ j, (v j - vp j) * dph.U k j) / 2 : ℝ) : ℂ) * I) := by
+  have hs : ∀ k, toC (C.mul (csigmoid (piArgRe am v vp k) (piArgIm ph v vp k)) C.I) = sigC (zArg am ph v vp k) * I := by
+    intro k; rw [toC_mul, toC_I, toC_csigmoid _ _ (hz k)]; rfl
+  have hp := pairC_piGrad am ph dph true v vp
+  simp only [if_true, hs, add_zero] at hp
+  have hsum : (∑ k, sigC (zArg am ph v vp k) * ((((∑ j, (v j - vp j) * dph.U k j) / 2 : ℝ) : ℂ) * I))
+      = pairC (piGrad am ph true v vp) dph := by
+    rw [hp]; refine Finset.sum_congr rfl (fun k _ => by ring)
+  rw [hsum]
+  apply Complex.ext
+  · simp [pairC, dmPhGrads]
+  · simp [pairC, dmPhGrads, PRBM.pair_add]
+
+/-- `ρ(v,v')` of the model is differentiable along parameter curves (where the guard holds), with logarithmic
+derivative the pairing of the model's `am_grads` / `ph_grads` entries with the velocities. -/
+theorem hasDerivAt_toC_rho (ram rph : ℝ → PRBM ℝ n h a) (dam dph : PRBM ℝ n h a) (t : ℝ)
+    (ha : PRBM.CurveAt ram dam t) (hp : PRBM.CurveAt rph dph t) (v vp : Fin n → ℝ)
+    (hz : ∀ k, (1 : ℂ) + Complex.exp (zArg (ram t) (rph t) v vp k) ≠ 0) :
+    HasDerivAt (fun s => toC (rho (ram s) (rph s) v vp))
+      (toC (rho (ram t) (rph t) v vp) *
+        (pairC (dmAmGrads (ram t) (rph t) v vp) dam + pairC (dmPhGrads (ram t) (rph t) v vp) dph)) t := by
+  -- the guard holds in a neighbourhood of t
+  have hcont : ∀ k, ContinuousAt (fun s => (1 : ℂ) + Complex.exp (zArg (ram s) (rph s) v vp k)) t := by
+    intro k
+    have hzk : HasDerivAt (fun s => zArg (ram s) (rph s) v vp k)
+        ((((∑ j, (v j + vp j) * dam.U k j) / 2 + dam.d k : ℝ) : ℂ) + (((∑ j, (v j - vp j) * dph.U k j) / 2 : ℝ) : ℂ) * I) t :=
+      (hasDerivAt_piArgRe ram dam t ha v vp k).ofReal_comp.add
+        ((hasDerivAt_piArgIm rph dph t hp v vp k).ofReal_comp.mul_const I)
+    exact ((hzk.cexp).const_add 1).continuousAt
+  have hev : ∀ᶠ s in nhds t, ∀ k, (1 : ℂ) + Complex.exp (zArg (ram s) (rph s) v vp k) ≠ 0 := by
+    rw [Filter.eventually_all]
+    exact fun k => (hcont k).eventually_ne (hz k)
+  have heq : (fun s => toC (rho (ram s) (rph s) v vp)) =ᶠ[nhds t] fun s => rhoProd (ram s) (rph s) v vp :=
+    hev.mono (fun s hs => toC_rho_eq_rhoProd _ _ _ _ hs)
+  have hd := (hasDerivAt_rhoProd ram rph dam dph t ha hp v vp hz).congr_of_eventuallyEq heq
+  refine hd.congr_deriv ?_
+  rw [toC_rho_eq_rhoProd _ _ _ _ hz, pairC_dmAmGrads _ _ _ _ _ hz, pairC_dmPhGrads _ _ _ _ _ hz]
+  congr 1
+  simp only [mul_add, Finset.sum_add_distrib]
+  ring
+
+/-! ### the rotated Born probability of one sample and the model's `DensityMatrix.rotated_gradient` -/
+
+open Unitaries
+
+theorem PRBM.ext' {x y : PRBM ℝ n h a} (hW : x.W = y.W) (hU : x.U = y.U) (hb : x.b = y.b) (hc : x.c = y.c)
+    (hd : x.d = y.d) : x = y := by
+  cases x; cases y; simp_all
+
+/-- parameter-independent part of `UrhoU_v[τ1,τ2]`: `[τ1, τ2 expansions of σ] · Ut_τ1 · conj(Ut_τ2)` -/
+noncomputable def dmC (dict : Char → M2 ℝ) (smp : Sample n) (τ1 τ2 : Fin n → Bool) : ℂ :=
+  if (agreesOff n smp.rot smp.σ τ1 && agreesOff n smp.rot smp.σ τ2) = true then
+    toC (rotCoeff n (fun j => dict (smp.letter j)) smp.rot smp.σ τ1)
+      * (starRingEnd ℂ) (toC (rotCoeff n (fun j => dict (smp.letter j)) smp.rot smp.σ τ2))
+  else 0
+
+theorem toC_dmCoef (am ph : PRBM ℝ n h a) (dict : Char → M2 ℝ) (smp : Sample n) (τ1 τ2 : Fin n → Bool) :
+    toC (dmCoef am ph dict smp τ1 τ2) = dmC dict smp τ1 τ2 * toC (rho am ph (visOf τ1) (visOf τ2)) := by
+  unfold dmCoef dmC
+  split <;> simp
+
+/-- pair index over the generated space -/
+abbrev PairIx (n : ℕ) := Fin (2 ^ n) × Fin (2 ^ n)
+/-- the two basis states of a pair index -/
+def pairSt (x : PairIx n) : (Fin n → Bool) × (Fin n → Bool) :=
+  (fun j => spaceBit n x.1.val j, fun j => spaceBit n x.2.val j)
+
+theorem dmUrhoU_eq (am ph : PRBM ℝ n h a) (dict : Char → M2 ℝ) (smp : Sample n) :
+    dmUrhoU am ph dict smp
+      = ∑ x : PairIx n, (dmC dict smp (pairSt x).1 (pairSt x).2
+          * toC (rho am ph (visOf (pairSt x).1) (visOf (pairSt x).2))).re := by
+  unfold dmUrhoU
+  simp only [sumFin_eq]
+  rw [Fintype.sum_prod_type]
+  refine Finset.sum_congr rfl (fun k _ => Finset.sum_congr rfl (fun l _ => ?_))
+  rw [← toC_dmCoef]; rfl
+
+/-- the guard for every pair of basis states -/
+def NZall (am ph : PRBM ℝ n h a) : Prop :=
+  ∀ (τ1 τ2 : Fin n → Bool) (k : Fin a), (1 : ℂ) + Complex.exp (zArg am ph (visOf τ1) (visOf τ2) k) ≠ 0
+
+theorem hasDerivAt_dmUrhoU (ram rph : ℝ → PRBM ℝ n h a) (dam dph : PRBM ℝ n h a) (t : ℝ)
+    (ha : PRBM.CurveAt ram dam t) (hp : PRBM.CurveAt rph dph t) (dict : Char → M2 ℝ) (smp : Sample n)
+    (hz : NZall (ram t) (rph t)) :
+    HasDerivAt (fun s => dmUrhoU (ram s) (rph s) dict smp)
+      (∑ x : PairIx n, (toC (dmCoef (ram t) (rph t) dict smp (pairSt x).1 (pairSt x).2)
+          * (pairC (dmAmGrads (ram t) (rph t) (visOf (pairSt x).1) (visOf (pairSt x).2)) dam
+             + pairC (dmPhGrads (ram t) (rph t) (visOf (pairSt x).1) (visOf (pairSt x).2)) dph)).re) t := by
+  have hfun : (fun s => dmUrhoU (ram s) (rph s) dict smp)
+      = fun s => ∑ x : PairIx n, (dmC dict smp (pairSt x).1 (pairSt x).2
+          * toC (rho (ram s) (rph s) (visOf (pairSt x).1) (visOf (pairSt x).2))).re := by
+    funext s; exact dmUrhoU_eq _ _ _ _
+  rw [hfun]
+  refine (HasDerivAt.fun_sum (fun x _ => re_hasDerivAt
+    ((hasDerivAt_toC_rho ram rph dam dph t ha hp (visOf (pairSt x).1) (visOf (pairSt x).2)
+      (hz (pairSt x).1 (pairSt x).2)).const_mul (dmC dict smp (pairSt x).1 (pairSt x).2)))).congr_deriv ?_
+  refine Finset.sum_congr rfl (fun x _ => ?_)
+  rw [toC_dmCoef, mul_assoc]
+
+/-- `dmRotComp` is a real-linear functional of the raw gradient entries (real and imaginary parts) -/
+theorem dmRotComp_split (am ph : PRBM ℝ n h a) (dict : Char → M2 ℝ) (eps : ℝ) (smp : Sample n)
+    (g : (Fin n → Bool) → (Fin n → Bool) → C ℝ) :
+    dmRotComp am ph dict eps smp g
+      = (∑ x : PairIx n, (g (pairSt x).1 (pairSt x).2).1
+            * (-((dmCoef am ph dict smp (pairSt x).1 (pairSt x).2).1) * (1 / (dmUrhoU am ph dict smp + eps))))
+        + ∑ x : PairIx n, (g (pairSt x).1 (pairSt x).2).2
+            * ((dmCoef am ph dict smp (pairSt x).1 (pairSt x).2).2 * (1 / (dmUrhoU am ph dict smp + eps))) := by
+  unfold dmRotComp
+  simp only [sumFin_eq]
+  rw [Fintype.sum_prod_type, Fintype.sum_prod_type, neg_mul, Finset.sum_mul, ← Finset.sum_neg_distrib, ← Finset.sum_add_distrib]
+  refine Finset.sum_congr rfl (fun k _ => ?_)
+  rw [Finset.sum_mul, ← Finset.sum_neg_distrib, ← Finset.sum_add_distrib]
+  refine Finset.sum_congr rfl (fun l _ => ?_)
+  simp only [C.mul, pairSt]
+  ring
+
+/-- pairing of the model's per-sample gradient (rotated branch) of either network -/
+theorem pair_dmRot (am ph d : PRBM ℝ n h a) (dict : Char → M2 ℝ) (eps : ℝ) (smp : Sample n)
+    (g : (Fin n → Bool) → (Fin n → Bool) → CPRBM ℝ n h a) :
+    PRBM.pair
+      { W := fun i j => dmRotComp am ph dict eps smp (fun τ1 τ2 => ((g τ1 τ2).1.W i j, (g τ1 τ2).2.W i j))
+        U := fun k j => dmRotComp am ph dict eps smp (fun τ1 τ2 => ((g τ1 τ2).1.U k j, (g τ1 τ2).2.U k j))
+        b := fun j => dmRotComp am ph dict eps smp (fun τ1 τ2 => ((g τ1 τ2).1.b j, (g τ1 τ2).2.b j))
+        c := fun i => dmRotComp am ph dict eps smp (fun τ1 τ2 => ((g τ1 τ2).1.c i, (g τ1 τ2).2.c i))
+        d := fun k => dmRotComp am ph dict eps smp (fun τ1 τ2 => ((g τ1 τ2).1.d k, (g τ1 τ2).2.d k)) } d
+      = -(∑ x : PairIx n, (toC (dmCoef am ph dict smp (pairSt x).1 (pairSt x).2)
+            * pairC (g (pairSt x).1 (pairSt x).2) d).re) / (dmUrhoU am ph dict smp + eps) := by
+  set wr : PairIx n → ℝ := fun x => -((dmCoef am ph dict smp (pairSt x).1 (pairSt x).2).1) * (1 / (dmUrhoU am ph dict smp + eps))
+  set wi : PairIx n → ℝ := fun x => (dmCoef am ph dict smp (pairSt x).1 (pairSt x).2).2 * (1 / (dmUrhoU am ph dict smp + eps))
+  have hrec : (⟨fun i j => dmRotComp am ph dict eps smp (fun τ1 τ2 => ((g τ1 τ2).1.W i j, (g τ1 τ2).2.W i j)),
+        fun k j => dmRotComp am ph dict eps smp (fun τ1 τ2 => ((g τ1 τ2).1.U k j, (g τ1 τ2).2.U k j)),
+        fun j => dmRotComp am ph dict eps smp (fun τ1 τ2 => ((g τ1 τ2).1.b j, (g τ1 τ2).2.b j)),
+        fun i => dmRotComp am ph dict eps smp (fun τ1 τ2 => ((g τ1 τ2).1.c i, (g τ1 τ2).2.c i)),
+        fun k => dmRotComp am ph dict eps smp (fun τ1 τ2 => ((g τ1 τ2).1.d k, (g τ1 τ2).2.d k))⟩ : PRBM ℝ n h a)
+      = PRBM.add
+          ⟨fun i j => ∑ x, ((g (pairSt x).1 (pairSt x).2).1).W i j * wr x, fun k j => ∑ x, ((g (pairSt x).1 (pairSt x).2).1).U k j * wr x,
+           fun j => ∑ x, ((g (pairSt x).1 (pairSt x).2).1).b j * wr x, fun i => ∑ x, ((g (pairSt x).1 (pairSt x).2).1).c i * wr x,
+           fun k => ∑ x, ((g (pairSt x).1 (pairSt x).2).1).d k * wr x⟩
+          ⟨fun i j => ∑ x, ((g (pairSt x).1 (pairSt x).2).2).W i j * wi x, fun k j => ∑ x, ((g (pairSt x).1 (pairSt x).2).2).U k j * wi x,
+           fun j => ∑ x, ((g (pairSt x).1 (pairSt x).2).2).b j * wi x, fun i => ∑ x, ((g (pairSt x).1 (pairSt x).2).2).c i * wi x,
+           fun k => ∑ x, ((g (pairSt x).1 (pairSt x).2).2).d k * wi x⟩ := by
+    apply PRBM.ext' <;> (simp only [PRBM.add]; funext _) <;> first
+      | exact dmRotComp_split _ _ _ _ _ _
+      | (funext _; exact dmRotComp_split _ _ _ _ _ _)
+  rw [hrec, PRBM.pair_add,
+    PRBM.pair_weighted (fun x : PairIx n => (g (pairSt x).1 (pairSt x).2).1) wr d,
+    PRBM.pair_weighted (fun x : PairIx n => (g (pairSt x).1 (pairSt x).2).2) wi d,
+    ← Finset.sum_add_distrib, neg_div, Finset.sum_div, ← Finset.sum_neg_distrib]
+  refine Finset.sum_congr rfl (fun x _ => ?_)
+  simp only [wr, wi, pairC, Complex.mul_re, toC_re, toC_im]
+  ring
 
 end QV
